@@ -726,13 +726,19 @@ func (c *Chan[T]) Close() {
 	if c == nil {
 		panic("close of nil channel")
 	}
+	// (the effect is applied by whichever thread runs the scheduler; the panic belongs to the closing thread)
+	twice := false
 	Simple("close", func() bool { return true }, func() {
 		if c.c.closed {
-			panic("close of closed channel")
+			twice = true
+			return
 		}
 		c.c.closed = true
 		Ordered(&c.c.O, 30, false)
 	})
+	if twice {
+		panic("close of closed channel")
+	}
 }
 
 type Sel struct {
